@@ -1,6 +1,8 @@
 (* C04 — shape of the generated cases and the two executable verdicts. No proofs. *)
 From VLib Require Import CaseLib.
-From C04 Require Import Model.
+From C04 Require Import Model ModelSlots.
+(* docs block cache (ModelDocsCache has its own two32): required, not imported *)
+From C04 Require ModelDocsCache.
 (* gen-* cases (validation of the translator): required, not imported (GoSem has its own Panic) *)
 From VLib Require GoSem.
 From C04 Require GenCase.
@@ -8,6 +10,16 @@ Notation GVal := GoSem.GVal.
 Notation GPanic := GoSem.GPanic.
 Notation GFuel := GoSem.GFuel.
 Open Scope N_scope.
+
+(* operations on the reader + cache: ReadDocs at a file offset, one key dropped by a cleaner pass, cache Reset *)
+Inductive dcop := DRead (off : N) | DEvict (key : N) | DReset.
+(* one step of a Fetcher history: kind (0 = live context; 1 = context cancelled before the call; 2 = deadline
+   passed before the call; 3 = the client cancels when the active fraction's fetch starts, i.e. after the last
+   candidate was dispatched), the requested IDs (one chunk), number of repetitions *)
+Definition sstep := (N * list idsrc * N)%type.
+(* observation of a step: every repetition returned in time; the largest number of slots in use seen after a
+   repetition; errors: 0 = no repetition returned an error, 1 = every one did, 2 = some did *)
+Definition sobs := (bool * N * N)%type.
 
 Inductive case :=
 (* real GrpcV1.Fetch over the fractions frs for the request ids: impl = what the stream delivered
@@ -37,7 +49,17 @@ Inductive case :=
 | CSealedPos (g : cfg) (ptab lids : list N) (impl : option (list N))
 (* gen-<func>: the REAL Go function number fn (GenCase.gen_eval) was called on args and returned impl (or
    panicked); the model side is the definition GENERATED from the Go source by go2coq (Gen.v) *)
-| CGen (fn : N) (args : list (list Z)) (impl : GoSem.gres).
+| CGen (fn : N) (args : list (list Z)) (impl : GoSem.gres)
+(* ---- the docs block cache in front of disk.DocsReader (repair 871e0d8) ----
+   a REAL disk.DocsReader with a REAL cache.Cache over a sparse file holding, at file offset o, the doc block
+   number b for every (o, b) of blocks; ops in order; impl = per DRead the number of the block whose documents
+   ReadDocs returned (None = error; a number no block has = unknown bytes / panic); keys = the keys the real
+   cache holds at the end *)
+| CDocsCache (blocks : list (N * N)) (ops : list dcop) (impl : list (option N)) (keys : list N)
+(* ---- the worker slots of the store's long-lived Fetcher over a HISTORY of FetchDocs calls ----
+   W = cap(Fetcher.sem); faults as in CFault (they hold for every step); steps in order; obs = one per step *)
+| CSlots (g : cfg) (frs : list frac) (panic_active : bool) (damaged : list N) (W : N)
+         (steps : list sstep) (impl : list sobs).
 
 Definition body_eqb (a b : body) : bool := (fst a =? fst b) && (snd a =? snd b).
 Definition sent_eqb (a b : id * option body) : bool :=
@@ -55,6 +77,60 @@ Definition docs_of_sizes (sizes : list N) : list (option body) :=
 Definition group_eqb (a b : N * list N * list N) : bool :=
   let '(b1, o1, i1) := a in let '(b2, o2, i2) := b in
   (b1 =? b2) && list_eqb N.eqb o1 o2 && list_eqb N.eqb i1 i2.
+
+(* ---- docs block cache: the file as a function of the offset; Reset = every key any block can have is dropped *)
+Definition dc_blk (blocks : list (N * N)) (off : N) : option N := assoc off blocks.
+Definition dc_expand (blocks : list (N * N)) (o : dcop) : list ModelDocsCache.op :=
+  match o with
+  | DRead off => [ModelDocsCache.Read off]
+  | DEvict k => [ModelDocsCache.Evict k]
+  | DReset => map (fun b : N * N => ModelDocsCache.Evict (fst b mod two32)) blocks
+              ++ map (fun b : N * N => ModelDocsCache.Evict (fst b)) blocks
+  end.
+(* the model's cache after the operations *)
+Fixpoint dc_final (rd : ModelDocsCache.cache N -> N -> option N * ModelDocsCache.cache N)
+         (c : ModelDocsCache.cache N) (ops : list ModelDocsCache.op) : ModelDocsCache.cache N :=
+  match ops with
+  | [] => c
+  | ModelDocsCache.Read off :: r => dc_final rd (snd (rd c off)) r
+  | ModelDocsCache.Evict k :: r => dc_final rd (ModelDocsCache.remove N k c) r
+  end.
+Definition same_keys (a b : list N) : bool :=
+  forallb (fun k => existsb (N.eqb k) b) a && forallb (fun k => existsb (N.eqb k) a) b.
+
+(* ---- Fetcher slots: the candidate fractions of one chunk in dispatch order (FetchDocs: sortIDs, FilterInRange,
+   groupIDsByFraction) with the way their fetch ends *)
+Definition workers (g : cfg) (fs : list cfrac) (ids : list idsrc) : list wres :=
+  match ids with
+  | [] => []
+  | _ => let '(s, lo, hi) := sort_ids ids in
+         let cand := filter (fun c => intersecting (cf c) lo hi) fs in
+         map (fun ci : cfrac * list id =>
+                match frac_fetch g (fst ci) (snd ci) with
+                | Ok _ => WOk
+                | _ => if cf_fault (fst ci) then WPanic else WErr
+                end) (group cand s)
+  end.
+(* kind 3: every candidate is dispatched (its worker may end at once), the client cancels after the last dispatch *)
+Definition sched_late_cancel (fr : list wres) : list move :=
+  flat_map (fun _ => [MAcquire; MFinish 0]) (removelast fr) ++ [MAcquire; MCancel].
+Definition agg_obs (os : list obs) : sobs :=
+  (forallb (fun o : obs => snd (fst o)) os,
+   fold_left (fun a (o : obs) => N.max a (fst (fst o))) os 0,
+   if forallb (fun o : obs => negb (snd o)) os then 0 else if forallb (fun o : obs => snd o) os then 1 else 2).
+Fixpoint slots_run (g : cfg) (fs : list cfrac) (W u : N) (steps : list sstep) : list sobs :=
+  match steps with
+  | [] => []
+  | (k, ids, rep) :: t =>
+      let fr := workers g fs ids in
+      let rq : request := (fr, (k =? 1) || (k =? 2), if k =? 3 then sched_late_cancel fr else []) in
+      let os := history false W u (repeat rq (N.to_nat rep)) in
+      agg_obs os :: slots_run g fs W (fold_left (fun _ (o : obs) => fst (fst o)) os u) t
+  end.
+(* whether a call made with a context that is already done returns an error depends on the select: not compared *)
+Definition sobs_agree (a b : N * sobs) : bool :=
+  let '(k, (r1, u1, e1)) := a in let '(_, (r2, u2, e2)) := b in
+  Bool.eqb r1 r2 && (u1 =? u2) && ((k =? 1) || (k =? 2) || (e1 =? e2)).
 
 (* model output = implementation output *)
 Definition case_agrees (c : case) : bool :=
@@ -100,6 +176,15 @@ Definition case_agrees (c : case) : bool :=
       | _, _ => false
       end
   | CGen fn args impl => GoSem.gres_eqb (GenCase.gen_eval fn args) impl
+  | CDocsCache blocks ops impl keys =>
+      let mops := flat_map (dc_expand blocks) ops in
+      list_eqb (option_eqb N.eqb) (ModelDocsCache.run N (dc_blk blocks) [] mops) impl
+      && same_keys (map fst (dc_final (ModelDocsCache.read N (dc_blk blocks)) [] mops)) keys
+  | CSlots g frs pa dmg W steps impl =>
+      list_eqb sobs_agree (combine (map (fun st : sstep => fst (fst st)) steps)
+                                   (slots_run g (map (compile_faulty pa dmg) frs) W 0 steps))
+               (combine (map (fun st : sstep => fst (fst st)) steps) impl)
+      && (N.of_nat (length steps) =? N.of_nat (length impl))
   end.
 
 (* ---- the property itself, evaluated on the implementation's output, independent of the model's algorithm:
@@ -254,6 +339,27 @@ Definition case_spec_ok (c : case) : bool :=
            end
       else true
   | CGen _ _ _ => true   (* translator validation: correspondence only *)
+  (* every read returns the block stored at the requested offset (an error where the file holds none) *)
+  | CDocsCache blocks ops impl keys =>
+      list_eqb (option_eqb N.eqb)
+               (flat_map (fun o => match o with DRead off => [assoc off blocks] | _ => [] end) ops) impl
+  (* never hang the store, over request sequences: every call of the history has returned, after every call no
+     worker slot is in use; a call with a live context fails only because of an injected fault, and does fail
+     when it asks for a document of a faulty fraction *)
+  | CSlots g frs pa dmg W steps impl =>
+      let bad := map f_name (filter (fun f => (pa && negb (f_sealed f)) || existsb (N.eqb (f_name f)) dmg) frs) in
+      let m := corpus frs in
+      let hits (s : idsrc) :=
+        existsb (fun p : N * body => existsb (N.eqb (fst p)) bad && ((snd s =? 0) || (snd s =? fst p)))
+                (st_get m (fst s)) in
+      (N.of_nat (length steps) =? N.of_nat (length impl))
+      && forallb (fun so : sstep * sobs =>
+                    let '((k, ids, rep), (ret, used, e)) := so in
+                    ret && (used =? 0)
+                    && ((k =? 1) || (k =? 2)
+                        || (if e =? 0 then negb (existsb hits ids)
+                            else if e =? 1 then pa || negb (is_nil dmg) else false)))
+                 (combine steps impl)
   end.
 
 Definition diff_indices (l : list case) : list nat := bad_indices (fun c => negb (case_agrees c)) l.
